@@ -158,6 +158,7 @@ inductive SubstArg where
   | str (s : String)                  -- a string: `.split()` when it contains a blank, else ITERATED CHARACTER-WISE
   | substs (l : List Subst)           -- list / tuple of Substance instances: keyed by `.name`, order kept
   | odict (od : ODict)                -- an OrderedDict: taken as is (keys unique)
+  | dict (od : ODict)                 -- a plain `dict` key → Substance: `OrderedDict(substances)` (line 102), SORTED by default
 deriving Repr
 
 inductive Check where
@@ -218,6 +219,7 @@ def substancesOf (rxns : List Rxn) : SubstArg → ODict × Bool
     (odictOf (l.map fun k => (k, { name := k })), false)
   | .substs l => (odictOf (l.map fun s => (s.name, s)), false)
   | .odict od => (od, false)
+  | .dict od => (od, true)
 
 /-- `ReactionSystem(rxns, substances, checks=checks, sort_substances=sort)`:
     `sort = none` is Python's `None` (default by type of `substances`). The checks run BEFORE sorting. -/
@@ -230,6 +232,43 @@ def RSys.make (rxns : List Rxn) (arg : SubstArg) (checks : List Check) (sort : O
   | none =>
     let doSort := match sort with | some b => b | none => dflt
     .ok (if doSort then ⟨rxns, sortSubstances od⟩ else s)
+
+/-- lines 108-112, `missing_substances_from_keys=True`: every reaction key that is no substance yet gets `substance_factory(k)`.
+    Python walks a `set` difference (hash order); the keys are appended here in first-occurrence order, which is faithful only when
+    the order does not matter (sorting applies afterwards) or at most one key is missing — the harness generates nothing else. -/
+def addMissing (od : ODict) (rxns : List Rxn) : ODict :=
+  odictUpdate od (((allKeys rxns).filter fun k => !(od.map (·.1)).contains k).map fun k => (k, { name := k }))
+
+inductive MakeErr where
+  | check (c : Check)   -- explicit `checks`: the first failing one (in the order given)
+  | anyCheck            -- default checks (`default_checks ^ dont_check`, a hash-ordered set): SOME check raised ValueError
+  | bothGiven           -- line 117: "Cannot specify both checks and dont_check"
+  | typeError           -- `set.union(*[])`: `missing_substances_from_keys=True` with no reactions
+deriving DecidableEq, Repr
+
+/-- the whole constructor: `ReactionSystem(rxns, substances, checks=checks, dont_check=dontCheck, sort_substances=sort,
+    missing_substances_from_keys=missing)`. `checks = none` is Python's `None` (default checks; `balance` is outside the model
+    and must be in `dont_check`, which then lists the modelled checks to skip). Order of events as in the code:
+    substances, missing keys, the both-given refusal, the checks, sorting. -/
+def RSys.makeFull (rxns : List Rxn) (arg : SubstArg) (checks : Option (List Check)) (dontCheck : Option (List Check))
+    (sort : Option Bool) (missing : Bool) : Except MakeErr RSys :=
+  if missing && rxns.isEmpty then .error .typeError else
+  let od := if missing then addMissing (substancesOf rxns arg).1 rxns else (substancesOf rxns arg).1
+  let s : RSys := ⟨rxns, od⟩
+  let doSort := match sort with | some b => b | none => (substancesOf rxns arg).2
+  let done : RSys := if doSort then ⟨rxns, sortSubstances od⟩ else s
+  match checks, dontCheck with
+  | some _, some _ => .error .bothGiven
+  | some cs, none => match firstFailing s cs with
+    | some c => .error (.check c)
+    | none => .ok done
+  | none, dc =>
+    let skip := match dc with | some l => l | none => []
+    if ([Check.substanceKeys, .duplicate, .duplicateNames].filter fun c => !skip.contains c).all (runCheck s) then .ok done
+    else .error .anyCheck
+
+/-- `as_substance_index(i: int)`: returned as it is (no bounds check) -/
+def asSubstanceIndexInt (_s : RSys) (i : Int) : Int := i
 
 /-! ### split (reactionsystem.py:126-163) -/
 
@@ -389,6 +428,59 @@ def categorize (s : RSys) (checks : List Check) : Except CatErr Categories :=
           depleted := ks.filter fun k => categoryOf irr.rxns k = .depleted
           unaffected := ks.filter fun k => categoryOf irr.rxns k = .unaffected
           nonparticipating := ks.filter fun k => categoryOf irr.rxns k = .nonparticipating }
+
+/-! #### the refusal of negative totals (line 199-200)
+
+The stoichiometric coefficients of the model are `Nat`. Reactions built with `checks=()` may carry negative numbers; the only
+modelled function with a branch for them is `categorize_substances`: "Expected positive stoichiometric coefficients" when a
+TOTAL (active + inactive) reactant or product coefficient of a substance of the system is negative. -/
+
+abbrev SStoich := List (String × Int)
+
+def SStoich.get (s : SStoich) (k : String) : Int :=
+  match s.lookup k with
+  | some v => v
+  | none => 0
+
+structure SRxn where
+  reac : SStoich
+  prod : SStoich
+  inactReac : SStoich
+  inactProd : SStoich
+  param : Option Int
+  name : Option String
+  paramB : Option Int
+  isEq : Bool
+deriving Repr
+
+def SStoich.toStoich? (s : SStoich) : Option Stoich :=
+  s.mapM fun kv => if 0 ≤ kv.2 then some (kv.1, kv.2.toNat) else none
+
+def SRxn.toRxn? (r : SRxn) : Option Rxn :=
+  match r.reac.toStoich?, r.prod.toStoich?, r.inactReac.toStoich?, r.inactProd.toStoich? with
+  | some a, some b, some c, some d =>
+    some { reac := a, prod := b, inactReac := c, inactProd := d, param := r.param, name := r.name, paramB := r.paramB, isEq := r.isEq }
+  | _, _, _, _ => none
+
+inductive SCatErr where
+  | cat (e : CatErr)
+  | negative      -- ValueError "Expected positive stoichiometric coefficients"
+  | unmodelled    -- a negative coefficient together with equilibria / requested checks / non-negative totals: not generated
+deriving DecidableEq, Repr
+
+/-- `categorize_substances` for reactions whose coefficients may be negative: without a negative coefficient it is `categorize`;
+    with one (plain reactions, `checks=()`) the code refuses as soon as some total over a substance of the system is negative. -/
+def categorizeSigned (rxns : List SRxn) (substs : ODict) (checks : List Check) : Except SCatErr Categories :=
+  match rxns.mapM SRxn.toRxn? with
+  | some l => match categorize ⟨l, substs⟩ checks with
+    | .ok c => .ok c
+    | .error e => .error (.cat e)
+  | none =>
+    if rxns.any (·.isEq) || !checks.isEmpty then .error .unmodelled
+    else if rxns.any fun r => (substs.map (·.1)).any fun k =>
+        decide (r.reac.get k + r.inactReac.get k < 0) || decide (r.prod.get k + r.inactProd.get k < 0)
+      then .error .negative
+    else .error .unmodelled
 
 /-! ### identify_equilibria (890-907) -/
 
